@@ -39,17 +39,26 @@ def check_compile_lookup(E, max_rules):
                     fails += 1
                     failures.append({"thresholds": ths, "what": "TypeError without duplicate"})
                 continue
-            ctx = Ctx(E, [], "bounded")
-            hb = HeapBuilder(ctx)
-            t = hb.term(lookup)
-            heap = hb.heap()
-            spec = Spec(ctx, heap, heap)
-            view = spec.view_term(t, K.Selector.fields["_lookup"], heap)
-            inv = K.lookup_inv(spec, view)
-            # and the rules sit on their own thresholds: entry j >= 1 with lower bound t maps to the rule declared for t
-            right_rules = all(
-                (lookup[k] is base) if j == 0 else (k[0] == lookup[k](None, None)) for j, k in enumerate(lookup)
-            )
+            except Exception as ex:  # noqa  (the function under test may do anything on a changed tree: that is a failure, not a crash of the harness)
+                fails += 1
+                failures.append({"thresholds": ths, "what": "raised %s: %s" % (type(ex).__name__, ex)})
+                continue
+            try:
+                ctx = Ctx(E, [], "bounded")
+                hb = HeapBuilder(ctx)
+                t = hb.term(lookup)
+                heap = hb.heap()
+                spec = Spec(ctx, heap, heap)
+                view = spec.view_term(t, K.Selector.fields["_lookup"], heap)
+                inv = K.lookup_inv(spec, view)
+                # and the rules sit on their own thresholds: entry j >= 1 with lower bound t maps to the rule declared for t
+                right_rules = all(
+                    (lookup[k] is base) if j == 0 else (k[0] == lookup[k](None, None)) for j, k in enumerate(lookup)
+                )
+            except Exception as ex:  # noqa  (the result is not even a table of ((low, high), rule) entries)
+                fails += 1
+                failures.append({"thresholds": ths, "what": "result %r is not a lookup table (%s: %s)" % (lookup, type(ex).__name__, ex)})
+                continue
             r = holds(inv)
             if r is not True or not right_rules:
                 fails += 1
@@ -92,16 +101,25 @@ def check_switch_init(E, max_pairs):
                     fails += 1
                     failures.append({"thresholds": ths, "what": "TypeError without duplicate thresholds"})
                 continue
-            ctx = Ctx(E, [], "bounded")
-            hb = HeapBuilder(ctx)
-            t = hb.term(sw._slaves)
-            heap = hb.heap()
-            spec = Spec(ctx, heap, heap)
-            view = spec.view_term(t, K.Switch.fields["_slaves"], heap)
-            r = holds(K.ascending(spec, view))
-            targets = default.target is pool and all(c.target is pool for c in ctls) and sw.target is pool
-            pairs = sorted(zip(ths, range(n)))
-            same = [x for x, _ in sw._slaves] == [x for x, _ in pairs] and all(sw._slaves[i][1] is ctls[pairs[i][1]] for i in range(n))
+            except Exception as ex:  # noqa
+                fails += 1
+                failures.append({"thresholds": ths, "what": "raised %s: %s" % (type(ex).__name__, ex)})
+                continue
+            try:
+                ctx = Ctx(E, [], "bounded")
+                hb = HeapBuilder(ctx)
+                t = hb.term(sw._slaves)
+                heap = hb.heap()
+                spec = Spec(ctx, heap, heap)
+                view = spec.view_term(t, K.Switch.fields["_slaves"], heap)
+                r = holds(K.ascending(spec, view))
+                targets = default.target is pool and all(c.target is pool for c in ctls) and sw.target is pool
+                pairs = sorted(zip(ths, range(n)))
+                same = [x for x, _ in sw._slaves] == [x for x, _ in pairs] and all(sw._slaves[i][1] is ctls[pairs[i][1]] for i in range(n))
+            except Exception as ex:  # noqa
+                fails += 1
+                failures.append({"thresholds": ths, "what": "the switch is not in a state that can be judged (%s: %s)" % (type(ex).__name__, ex)})
+                continue
             if r is not True or not targets or not same:
                 fails += 1
                 failures.append({"thresholds": ths, "what": "ascending=%s targets=%s pairs=%s" % (r, targets, same)})
@@ -115,6 +133,9 @@ def check_switch_init(E, max_pairs):
             failures.append({"slaves": repr(bad), "what": "accepted"})
         except (InvariantError, TypeError):
             pass
+        except Exception as ex:  # noqa
+            fails += 1
+            failures.append({"slaves": repr(bad), "what": "raised %s instead of rejecting: %s" % (type(ex).__name__, ex)})
     evals += 1
     try:
         sw = DemandSwitch.__new__(DemandSwitch)
@@ -123,6 +144,9 @@ def check_switch_init(E, max_pairs):
         failures.append({"what": "foreign-target slave accepted"})
     except InvariantError:
         pass
+    except Exception as ex:  # noqa
+        fails += 1
+        failures.append({"what": "foreign-target slave: raised %s instead of InvariantError: %s" % (type(ex).__name__, ex)})
     return {"function": "cobald.controller.switch:DemandSwitch.__init__", "tool": "exhaustive native enumeration, sidecar predicate `ascending` evaluated by z3 on the concrete result",
             "bound": "all slave tables of <= %d pairs with thresholds from %s in every order, plus 4 rejected shapes" % (max_pairs, GRID), "evaluations": evals, "failures": failures[:5], "n_failures": fails}
 
